@@ -90,11 +90,14 @@ C12Guards(rq, o) == (IF o.released THEN ReleaseGuards(rq) \cup TokenGuards(rq, o
 
 InC12(rq) == \E cc \in Clients, ca \in Clients \cup {"unknown"}, s \in {"right", "wrong", "absent"},
                 v \in {"right", "wrong", "absent", "challenge"}, ch \in {"S256", "plain", "none"}, rd \in {"same", "different"},
-                cd \in {"fresh", "expired", "tampered", "cookie", "access", "fresh_late"}, via \in {"header", "form"},
+                cd \in {"fresh", "expired", "tampered", "cookie", "access", "fresh_late"}, via \in {"header", "form", "header_formid"},
                 ap \in {"none", "allowed"} :
                 /\ (v = "challenge" => (cd = "fresh" /\ ch # "none" /\ ap = "none"))
                 /\ (cd = "fresh_late" => (cc = ca /\ rd = "same" /\ via = "form" /\ ap = "none" /\
                                            ((ca = "A" /\ s = "right" /\ v = "absent" /\ ch = "none") \/ (ca = "B" /\ s = "absent" /\ v = "right" /\ ch = "S256"))))
+                \* header_formid: the caller proves itself in the Authorization header and the form ALSO carries client_id = the
+                \* client the code was issued to: whoever authenticated is the caller, whatever the form says (no guard reads via)
+                /\ (via = "header_formid" => (ap = "none" /\ cd = "fresh"))
                 \* audparam: the authorization request named an extra audience the client is allowed to choose (it belongs
                 \* in the ACCESS token; the ID token still names the client alone)
                 /\ rq = [codeclient |-> cc, caller |-> ca, secret |-> s, verifier |-> v, chal |-> ch, redirect |-> rd,
